@@ -34,6 +34,32 @@ Theorem C11_unit : forall g,
   /\ o_file o = format (o_strings o).
 Proof. exact index_locale_facts. Qed.
 
+(** literal kinds.  `Literal::index_strings` gives an index to string literals only: *)
+Theorem C11_non_string_not_indexed : forall t ix, index_pv (PLitOther t) ix = (PLitOther t, ix).
+Proof. exact index_pv_other. Qed.
+
+(** `ParsedValue::merge` / `Locale::merge` with the per-key state `InterpolOrLit` left by the locales merged before
+    ([ik]: literal of some type in all of them, or a builder): every string literal of this locale's final values has
+    an index below the table length that selects its own text ([LIg]), the table only grows, and values and table are
+    exactly those of the walk that ignores the state — whatever the other locales' literal types are.  (A string where
+    the default locale has a boolean, a number where it has a string, ... : [ik] is universally quantified.) *)
+Theorem C11_literal_kinds_indexed : forall g ik ix g' ik' ix',
+  ix_wf ix -> merge_group g ik ix = Some (g', ik', ix') ->
+  ix_wf ix' /\ ext ix ix' /\ LIg (ix_acc ix') g' /\ index_group g ix = (g', ix').
+Proof. exact literal_kinds_indexed. Qed.
+
+(** the same for the default locale (`make_builder_keys`), which creates that state *)
+Theorem C11_literal_kinds_indexed_default : forall g ix g' ik' ix',
+  ix_wf ix -> builder_group g ix = Some (g', ik', ix') ->
+  ix_wf ix' /\ ext ix ix' /\ LIg (ix_acc ix') g' /\ index_group g ix = (g', ix').
+Proof. exact literal_kinds_indexed_default. Qed.
+
+(** `check_locales_inner` over all locales of a namespace in configuration order: the values and the table of every
+    locale are those of that locale taken alone (no dependence on the order or on the other locales) *)
+Theorem C11_locales_independent : forall gs outs ikf,
+  check_locales gs = Some (outs, ikf) -> outs = map unit_of gs.
+Proof. exact locales_independent. Qed.
+
 (** propagate_string_count: when every `Subkeys { locales }` has one nested Locale per top
     locale, each nested Locale at any depth ends up with the count of its top locale *)
 Theorem C11_counts : forall tops b, lens_ok (length tops) b -> counts_are tops (propagate tops b).
@@ -68,6 +94,17 @@ Example C11_ex_roundtrip :
   /\ json_decode [91; 34; 92; 117; 48; 48; 52; 49; 92; 117; 100; 56; 51; 100; 92; 117; 100; 101; 48; 48; 34; 32; 93]
      = Some [[65; 128512]].
 Proof. vm_compute. split; reflexivity. Qed.
+Example C11_ex_literal_kinds :
+  let g := GCons [97] (EVal (PLit [111; 110] 18446744073709551615)) (GCons [98] (EVal (PLitOther TSigned)) GNil) in
+  let ik := IKCons [97] (IEVal (ILit TBool)) (IKCons [98] (IEVal (ILit TSigned)) IKNil) in
+  merge_group g ik ix_empty =
+    Some (GCons [97] (EVal (PLit [111; 110] 0)) (GCons [98] (EVal (PLitOther TSigned)) GNil),
+          IKCons [97] (IEVal IInterpol) (IKCons [98] (IEVal (ILit TSigned)) IKNil),
+          mk_ix [([111; 110], 0)] [[111; 110]])
+  /\ fst (fst (merge_value_skip (PLit [111; 110] 18446744073709551615) (ILit TBool) ix_empty))
+     = PLit [111; 110] 18446744073709551615
+  /\ lits_ok_pv [] 0 (PLit [111; 110] 18446744073709551615) = false.
+Proof. exact literal_kinds_example. Qed.
 Example C11_ex_tree :
   o_strings (index_locale ex_tree) = [[72; 105]; [160]; [49]]
   /\ spec_C11 [([[97]], [72; 105]); ([[98]; [99]], [72; 105])] 2 (index_locale ex_tree) = false
